@@ -23,6 +23,9 @@ pub struct EObs {
     pub content: Result<Vec<u8>, String>,
     /// three reads after EOF all returned Ok(0)
     pub post_eof_zero: bool,
+    /// extra_data() and comment() of the entry as the reader reports them
+    pub extra: Vec<u8>,
+    pub comment: String,
 }
 #[derive(Clone, Debug, PartialEq)]
 pub struct RObs {
@@ -123,10 +126,11 @@ pub fn run_seekable<R: Read + Seek>(r: R, pw: Option<&[u8]>, bufsize: usize, zer
             match opened {
                 Ok(mut f) => {
                     let meta = (f.name().to_string(), f.size(), f.compressed_size(), f.crc32(), method_id(f.compression()), f.last_modified().datepart(), f.last_modified().timepart(), f.header_start(), f.central_header_start(), f.data_start(), f.unix_mode());
+                    let (extra, fcomment) = (f.extra_data().to_vec(), f.comment().to_string());
                     let (content, post) = read_entry(&mut f, bufsize, zero);
-                    o.entries.push(EObs { meta, content, post_eof_zero: post });
+                    o.entries.push(EObs { meta, content, post_eof_zero: post, extra, comment: fcomment });
                 }
-                Err(e) => o.entries.push(EObs { meta: Default::default(), content: Err(format!("open: {e}")), post_eof_zero: false }),
+                Err(e) => o.entries.push(EObs { meta: Default::default(), content: Err(format!("open: {e}")), post_eof_zero: false, extra: vec![], comment: String::new() }),
             }
         }
         o
@@ -140,12 +144,13 @@ pub fn run_stream<R: Read>(mut r: R, bufsize: usize, zero: bool) -> Result<RObs,
             match zip::read::read_zipfile_from_stream(&mut r) {
                 Ok(Some(mut f)) => {
                     let meta = (f.name().to_string(), f.size(), f.compressed_size(), f.crc32(), method_id(f.compression()), f.last_modified().datepart(), f.last_modified().timepart(), f.header_start(), f.central_header_start(), f.data_start(), f.unix_mode());
+                    let (extra, fcomment) = (f.extra_data().to_vec(), f.comment().to_string());
                     let (content, post) = read_entry(&mut f, bufsize, zero);
-                    o.entries.push(EObs { meta, content, post_eof_zero: post });
+                    o.entries.push(EObs { meta, content, post_eof_zero: post, extra, comment: fcomment });
                 }
                 Ok(None) => break,
                 Err(e) => {
-                    o.entries.push(EObs { meta: Default::default(), content: Err(format!("next entry: {e}")), post_eof_zero: false });
+                    o.entries.push(EObs { meta: Default::default(), content: Err(format!("next entry: {e}")), post_eof_zero: false, extra: vec![], comment: String::new() });
                     break;
                 }
             }
@@ -181,11 +186,11 @@ pub fn run_stream_partial<R: Read>(mut r: R, k: usize) -> Result<RObs, String> {
                         }
                     }
                     buf.truncate(got);
-                    o.entries.push(EObs { meta, content: res.map(|_| buf), post_eof_zero: true });
+                    o.entries.push(EObs { meta, content: res.map(|_| buf), post_eof_zero: true, extra: vec![], comment: String::new() });
                 }
                 Ok(None) => break,
                 Err(e) => {
-                    o.entries.push(EObs { meta: Default::default(), content: Err(format!("next entry: {e}")), post_eof_zero: false });
+                    o.entries.push(EObs { meta: Default::default(), content: Err(format!("next entry: {e}")), post_eof_zero: false, extra: vec![], comment: String::new() });
                     break;
                 }
             }
